@@ -244,12 +244,15 @@ var c26StMutTable = [][3]string{
 	{"arr-elem", "cd", "a[1]=z"},
 	{"arr-elem-sparse", "d", "a[5]=z"},
 	{"arr-append", "cd", "a+=(z)"},
+	{"arr-append-subscript", "d", "a+=([1]=z)"}, // overwrites an existing element through the append path
 	{"arr-elem-append", "cd", "a[1]+=z"},
 	{"arr-unset-elem", "cd", "unset 'a[0]'"},
 	{"arr-unset", "d", "unset a"},
 	{"arr-reassign", "d", "a=(n)"},
 	{"arr-scalar-assign", "d", "a=z"},
 	{"arr-read", "d", "read -a a <<< 'y z'"},
+	{"sparse-insert-below", "d", "s[0]=z"}, // s has keys 1 2: the new key goes in front of the inherited index list
+	{"sparse-append", "d", "s+=(z)"},
 	{"assoc-elem", "cd", "m[k]=z"},
 	{"assoc-new-key", "cd", "m[n]=z"},
 	{"assoc-elem-append", "d", "m[k]+=z"},
@@ -263,6 +266,9 @@ var c26StMutTable = [][3]string{
 	{"scalar-arith", "d", ": $((x=5))"},
 	{"scalar-for-var", "d", "for x in z; do :; done"},
 	{"scalar-assign-default", "d", ": ${y:=z}"},
+	// (`printf -v x z` is left out: the interpreter's printf has no -v, which the
+	// class printf-echo-details-see-C24 records; every program with it diverges
+	// for that reason alone)
 	{"params-set", "c", "set -- r"},
 	{"params-shift", "", "shift"},
 	{"fn-redefine", "c", "f() { echo new; }"},
@@ -274,17 +280,17 @@ var c26StMutTable = [][3]string{
 
 // c26StView prints the state a mutation may have touched (used inside the
 // context, after the mutation, and after a function with local state returns).
-const c26StView = `echo "v:${x-U}:${y-U}:${a[*]-U}:${!a[*]}:${m[k]-U},${m[n]-U}:$#"`
+const c26StView = `echo "v:${x-U}:${y-U}:${a[*]-U}:${!a[*]}:${s[*]-U}:${!s[*]}:${m[k]-U},${m[n]-U}:$#"`
 
 // c26StViewAfterFn runs after a function with local state returned: the
 // locals must be gone. (No ${!a[*]} here: a is unset at this point, and the
 // keys of an unset variable are a fatal error in the interpreter, recorded
 // by C33/C21; it would mask every program of the local scope.)
-const c26StViewAfterFn = `echo "g:${x-U}:${y-U}:${a[*]-U}:${#a[@]}:${m[k]-U},${m[n]-U}:$#"`
+const c26StViewAfterFn = `echo "g:${x-U}:${y-U}:${a[*]-U}:${#a[@]}:${s[*]-U}:${m[k]-U},${m[n]-U}:$#"`
 
 // c26StEpilogue prints the parent's state after the context. Keys of m are
 // read one by one (the order of ${!m[@]} is unspecified).
-const c26StEpilogue = `echo "end:$? x=${x-U} y=${y-U} a=${a[*]-U} ia=${!a[*]} na=${#a[@]} m=${m[k]-U},${m[j]-U},${m[n]-U} nm=${#m[@]} p=$#:$*"
+const c26StEpilogue = `echo "end:$? x=${x-U} y=${y-U} a=${a[*]-U} ia=${!a[*]} na=${#a[@]} s=${s[*]-U} is=${!s[*]} m=${m[k]-U},${m[j]-U},${m[n]-U} nm=${#m[@]} p=$#:$*"
 f; echo "f:$?"
 case $- in *f*) echo o:f;; *) echo o:-;; esac
 [[ -o pipefail ]] && echo o:pf
@@ -312,13 +318,15 @@ var c26StCtxTable = [][3]string{
 	{"subshell-in-cond", "", "if ( %M ); then echo T; fi"},
 }
 
-const c26StSetupGlobal = "x=X; a=(A B C); declare -A m=([k]=v [j]=w); set -- p q; f() { echo old; }\n"
+// s is a sparse array with a history (keys 1 2 after an append and an unset):
+// its index list has been grown and cut, like a long-lived array's.
+const c26StSetupGlobal = "x=X; a=(A B C); s=(P Q); s+=(R); unset 's[0]'; declare -A m=([k]=v [j]=w); set -- p q; f() { echo old; }\n"
 
 func c26StProgram(local bool, body string) string {
 	if !local {
 		return c26StSetupGlobal + body + "\n" + c26StEpilogue + c26Suffix
 	}
-	return "f() { echo old; }\nw() {\nlocal x=X; local -a a=(A B C); local -A m=([k]=v [j]=w)\n" +
+	return "f() { echo old; }\nw() {\nlocal x=X; local -a a=(A B C); local -a s=(P Q); s+=(R); unset 's[0]'; local -A m=([k]=v [j]=w)\n" +
 		body + "\n" + c26StEpilogue + "\n}\nw p q\n" + c26StViewAfterFn + c26Suffix
 }
 
